@@ -133,7 +133,7 @@ def sign(x):
 
 def walk_message(wire):
     """Independent decoder of a whole message: returns dict(id, flags, counts, sections) where
-    sections[i] is a list of (labels, rrtype, rrclass, ttl, rdata_offset, rdata_bytes);
+    sections[i] is a list of (labels, rrtype, rrclass, ttl, rdata_offset, rdata_bytes, rr_start_offset);
     raises Reject on any malformed name / pointer / truncation / trailing octets."""
     if len(wire) < 12:
         raise Reject("short header")
@@ -144,12 +144,13 @@ def walk_message(wire):
     sections = [[], [], [], []]
     for s in range(4):
         for _ in range(counts[s]):
+            rr_start = pos
             labels, used, _f = ref_name_from_wire(wire, pos)
             pos += used
             if s == 0:
                 if pos + 4 > len(wire):
                     raise Reject("truncated question")
-                sections[0].append((labels, u16(pos), u16(pos + 2), 0, pos + 4, b""))
+                sections[0].append((labels, u16(pos), u16(pos + 2), 0, pos + 4, b"", rr_start))
                 pos += 4
                 continue
             if pos + 10 > len(wire):
@@ -160,7 +161,7 @@ def walk_message(wire):
             pos += 10
             if pos + rdlen > len(wire):
                 raise Reject("truncated RDATA")
-            sections[s].append((labels, rrtype, rrclass, ttl, pos, wire[pos:pos + rdlen]))
+            sections[s].append((labels, rrtype, rrclass, ttl, pos, wire[pos:pos + rdlen], rr_start))
             pos += rdlen
     if pos != len(wire):
         raise Reject("trailing octets")
